@@ -56,6 +56,29 @@ UNITS = {
             "fn value_size(value: &Value<'_>) -> usize",
         ],
     },
+    "datetime": {
+        "src": "src/sql/functions/datetime.rs",
+        "anchors": [
+            "fn is_leap_year(year: i64) -> bool",
+            "fn days_in_month(year: i64, month: u32) -> u32",
+            "fn date_to_days(year: i64, month: u32, day: u32) -> i64",
+            "fn days_to_date(days: i64) -> (i64, u32, u32)",
+            "fn day_of_week(year: i64, month: u32, day: u32) -> u32",
+            "fn day_of_year(year: i64, month: u32, day: u32) -> u32",
+        ],
+    },
+    "constraints": {
+        "src": "src/constraints/mod.rs",
+        "anchors": ["fn days_from_ymd(year: i32, month: u32, day: u32) -> i32"],
+    },
+    "literal": {
+        "src": "src/parsing/literal.rs",
+        "anchors": [
+            "fn is_leap_year(year: i32) -> bool",
+            "fn days_in_month(year: i32, month: u32) -> u32",
+            "fn date_to_days_since_epoch(year: i32, month: u32, day: u32) -> i32",
+        ],
+    },
 }
 
 PROPS = {
@@ -75,7 +98,9 @@ PROPS = {
         "level_note": "Trusted: Kani/CBMC; the Vec/SmallVec impls of KeyBuffer (harness supplies a fixed-array KeyBuffer to the real generic encoders); Rust slice Ord as the meaning of bytewise comparison. Nested array/tuple/range/json encoders are not covered.",
         "technique": "Kani full-domain Hoare triples on the real generic encoders/decoder + Verus loop-invariant proof of the escape codec on mechanically extracted functions",
         "kani_units": ["key"],
+        "verus_units": ["key_escape"],
         "explanation": "",
+        "assumptions": ["Verus unit key_escape: the real `impl KeyBuffer for Vec<u8>` / `SmallVec` are assumed to satisfy the trait contract (push appends one byte, extend_from_slice appends the slice)"],
     },
     "C33": {
         "level": "proof",
@@ -83,6 +108,14 @@ PROPS = {
         "level_note": "Trusted: Kani/CBMC; alloc::vec::Vec and SmallVec as compiled by Kani (executed, not assumed). Bounded: Text/Blob/Jsonb/Vector/ToastPointer payload length <= 2; rows <= 2 columns; `row.len() as u16` truncation above 65535 columns not covered.",
         "technique": "Kani full-domain Hoare triples on the real RowSerde functions (per-variant round-trip + size contract), bounded harnesses for variable-length payloads and row sequences",
         "kani_units": ["row_serde"],
+        "explanation": "",
+    },
+    "C41": {
+        "level": "proof",
+        "level_text": "Proof for every valid date of years 1..9999 that each internal calendar converter (date functions' date_to_days, DEFAULT parser's days_from_ymd, literal parser's date_to_days_since_epoch) satisfies anchor + successor rule of the proleptic Gregorian calendar, hence all equal the civil day number and agree with each other; days_to_date inverts date_to_days; leap/month-length helpers (which decide rejection of invalid days) match the rule. Text parsing/rendering and TIME arithmetic are not covered (partial).",
+        "level_note": "Trusted: Kani/CBMC (kissat for the partitioned inverse). The induction over days from the anchor is a meta-argument stated in contracts/kani/_calendar_oracle.rs. Not covered: string splitting/number parsing in parse_date/parse_time/parse_timestamp, canonical rendering, the inline JDN arithmetic in CompiledPredicate::parse_date.",
+        "technique": "Kani full-domain Hoare triples (anchor + successor induction step) on the real calendar kernels; year loop closed by unwind bound derived from the precondition",
+        "kani_units": ["datetime", "constraints", "literal"],
         "explanation": "",
     },
 }
